@@ -166,6 +166,55 @@ def run_case(G, eventless, fold, n, span, fold2=None, which="training-set", late
     return msgs, episodes, hash(tuple(sig))
 
 
+def check_long(size, span, n, picks):
+    """A LONG fold with a sampling span: the geometric start weights of the oldest positions become tiny; every
+    position where the episode fits must still be drawable (probability > 0) and the drawn episode must be right."""
+    msgs = []
+    reset_clock()
+    G = grid(size)
+    tr = Transmitter(list(G))
+    tr.add_events(bar_events(G, [A]))
+    env = TradingEnv(BoxPortfolio([A], -1, 1), transmitter=tr, episode_length=n, sampling_span=span)
+    ncand = size - n
+    sig = []
+    for pick in picks:
+        pick = pick % ncand
+        with ChoiceSeam(pick=pick) as seam:
+            try:
+                env.reset()
+            except BaseException as ex:
+                return ["long fold of %d steps, span %s, n=%d: reset refused (%r)" % (size, span, n, ex)], 0
+        if not seam.calls:
+            return ["episode length set but no start was drawn through numpy.random.choice (cannot enumerate starts)"], 0
+        cand, p = seam.calls[0]
+        if list(cand) != list(range(ncand)):
+            msgs.append("long fold of %d steps: %d start candidates offered (first %r, last %r), expected exactly the %d positions where %d decisions fit"
+                        % (size, len(cand), list(cand)[:1], list(cand)[-1:], ncand, n))
+        if p is not None:
+            zero = [i for i, x in enumerate(p) if not (x > 0)]
+            if len(p) != len(cand) or zero or abs(float(sum(p)) - 1) > 1e-9:
+                msgs.append("long fold of %d steps, span %s: %d of the %d fitting start positions have probability 0 (e.g. position %s) - every fitting position must be drawable"
+                            % (size, span, len(zero), len(p), zero[:1]))
+        visited = [env.now()]
+        try:
+            d = False
+            while not d and len(visited) < n + 3:
+                o, r, d, i = env.step(np.zeros(1))
+                visited.append(env.now())
+        except Exception as ex:
+            msgs.append("step raised %r" % (ex,))
+        if visited != G[pick:pick + n + 1]:
+            msgs.append("long fold, n=%d, start #%d: visited %s, expected %s" % (n, pick, [str(v) for v in visited[:4]], [str(v) for v in G[pick:pick + 3]]))
+        sig.append((pick, len(visited)))
+        if msgs:
+            break
+    return msgs, len(sig)
+
+
+LONG = {"quick": [(1200, 2, 2, (0, 1, 600, -1)), (1200, None, 3, (0, -1))],
+        "thorough": [(1200, 2, 2, (0, 1, 600, -1)), (1200, None, 3, (0, -1)), (3200, 4, 1, (0, 5, 1600, -1)), (2400, 3, 5, (0, 7, -1)), (5000, 8, 2, (0, -1))]}
+
+
 def cases(tier):
     sizes = (3, 4, 5) if tier == "quick" else (3, 4, 5, 6, 7, 8)
     for size in sizes:
@@ -337,6 +386,14 @@ def run(tier, **kw):
         nt2 += r["nontrivial"]
         for case, msg, group in r["violations"]:
             rep.violation(case, msg, group=group)
+    for (size, span, n, picks) in LONG[tier]:
+        msgs, eps = check_long(size, span, n, picks)
+        rep.add("evaluations", 1)
+        rep.add("episodes_executed", eps)
+        nt2 += 1
+        if msgs:
+            rep.violation({"kind": "long", "size": size, "span": span, "n": n, "picks": list(picks)}, "; ".join(msgs[:3]), group=("long", span))
+    rep.set("long_fold_cases", [list(x[:3]) for x in LONG[tier]])
     rep.set("walk_forward_cases", len(wf))
     rep.set("distinct_outcomes", len(outcomes))
     rep.set("distinct_nontrivial", len(nontrivial) + nt2)
@@ -344,7 +401,7 @@ def run(tier, **kw):
     rep.set("rule", "fold cases: grid size %s x {no event-less point, each single event-less point%s} x EVERY fold window (start <= end) over grid points, "
                     "midpoints and one point beyond each end x episode length None/1..size+1 x sampling span {none, 2} x every start the implementation offers "
                     "(numpy.random.choice seam); plus overlapping pairs of folds on one transmitter, and transmitters already used by another environment before one grid point received its first event; walk-forward: ALL (N<=14, train, test, sliding/expanding) "
-                    "with train+test<=N. non-trivial = distinct fold case with an episode length, an event-less point or a second fold, or walk-forward case with >= 2 folds"
+                    "with train+test<=N; long folds (1200-5000 steps) with a sampling span, where the geometric start weights of the oldest positions underflow unless floored. non-trivial = distinct fold case with an episode length, an event-less point or a second fold, or walk-forward case with >= 2 folds"
                     % ("3-5" if tier == "quick" else "3-8", "" if tier == "quick" else ", each pair"))
     rep.set("samples", [{"kind": "fold", "size": 5, "eventless": [2], "a": 2, "b": 8, "n": 2, "span": 2},
                         {"kind": "wf", "N": 10, "train": 4, "test": 2, "sliding": False}])
@@ -356,6 +413,8 @@ def run(tier, **kw):
 def replay(case, **kw):
     if case["kind"] == "wf":
         return check_walk_forward(case["N"], case["train"], case["test"], case["sliding"])
+    if case["kind"] == "long":
+        return check_long(case["size"], case["span"], case["n"], case["picks"])[0]
     G = grid_ms(case["size"]) if case.get("subsec") else grid(case["size"])
     pts = cut_points(G)
     fold = (pts[case["a"]], pts[case["b"]])
